@@ -2,6 +2,7 @@ package c08
 
 import (
 	"fmt"
+	"go/format"
 	"strings"
 
 	parser "github.com/a-h/templ/parser/v2"
@@ -109,4 +110,107 @@ func legacyCallAbsorbed(orig parser.TemplateFile, formatted string) bool {
 		return false
 	}
 	return deep(orig, false) != deep(orig, true) && deep(orig, true) == deep(tf2, false)
+}
+
+// gofmtExprs returns a copy of tf in which the Go expression texts that the formatter passes through gofmt (component
+// call expressions, attribute expressions, {{ }} blocks) are replaced by gofmt's output - the same oracle calls fmtser
+// makes.  gofmt may do more than re-space an expression: it moves a comment that follows a comma in front of the comma
+// (`f(a, /* c */ b)` -> `f(a /* c */, b)`), which no comparison "without white space" can absorb.
+func gofmtExprs(tf parser.TemplateFile) parser.TemplateFile {
+	src := func(v string) string {
+		if b, err := format.Source([]byte(v)); err == nil {
+			return string(b)
+		}
+		return v
+	}
+	attrExpr := func(v string) string { // ExpressionAttribute.formatExpression
+		trimmed := strings.TrimSpace(v)
+		if !strings.Contains(trimmed, "\n") {
+			return src(trimmed)
+		}
+		b, err := format.Source([]byte("[]any{\n" + trimmed + "\n}"))
+		if err != nil {
+			return trimmed
+		}
+		lines := strings.Split(string(b), "\n")
+		if len(lines) < 3 {
+			return trimmed
+		}
+		return strings.Join(lines[1:len(lines)-1], "\n")
+	}
+	var attrs func(as []parser.Attribute) []parser.Attribute
+	attrs = func(as []parser.Attribute) []parser.Attribute {
+		out := make([]parser.Attribute, 0, len(as))
+		for _, a := range as {
+			switch x := a.(type) {
+			case parser.ExpressionAttribute:
+				x.Expression.Value = attrExpr(x.Expression.Value)
+				a = x
+			case parser.ConditionalAttribute:
+				x.Then, x.Else = attrs(x.Then), attrs(x.Else)
+				a = x
+			}
+			out = append(out, a)
+		}
+		return out
+	}
+	var nodes func(ns []parser.Node) []parser.Node
+	nodes = func(ns []parser.Node) []parser.Node {
+		if ns == nil {
+			return nil
+		}
+		out := make([]parser.Node, 0, len(ns))
+		for _, n := range ns {
+			switch x := n.(type) {
+			case parser.Element:
+				x.Attributes, x.Children = attrs(x.Attributes), nodes(x.Children)
+				n = x
+			case parser.RawElement:
+				x.Attributes = attrs(x.Attributes)
+				n = x
+			case parser.ScriptElement:
+				x.Attributes = attrs(x.Attributes)
+				n = x
+			case parser.IfExpression:
+				x.Then, x.Else = nodes(x.Then), nodes(x.Else)
+				eis := make([]parser.ElseIfExpression, 0, len(x.ElseIfs))
+				for _, e := range x.ElseIfs {
+					e.Then = nodes(e.Then)
+					eis = append(eis, e)
+				}
+				x.ElseIfs = eis
+				n = x
+			case parser.ForExpression:
+				x.Children = nodes(x.Children)
+				n = x
+			case parser.SwitchExpression:
+				cs := make([]parser.CaseExpression, 0, len(x.Cases))
+				for _, c := range x.Cases {
+					c.Children = nodes(c.Children)
+					cs = append(cs, c)
+				}
+				x.Cases = cs
+				n = x
+			case parser.TemplElementExpression:
+				x.Expression.Value = src(x.Expression.Value)
+				x.Children = nodes(x.Children)
+				n = x
+			case parser.GoCode:
+				x.Expression.Value = src(x.Expression.Value)
+				n = x
+			}
+			out = append(out, n)
+		}
+		return out
+	}
+	res := tf
+	res.Nodes = make([]parser.TemplateFileNode, 0, len(tf.Nodes))
+	for _, n := range tf.Nodes {
+		if t, ok := n.(parser.HTMLTemplate); ok {
+			t.Children = nodes(t.Children)
+			n = t
+		}
+		res.Nodes = append(res.Nodes, n)
+	}
+	return res
 }
